@@ -215,7 +215,7 @@ func (o *Opts) Matrix() *Node {
 	anon := t.Draw(3, "matrix:anon") == 0
 	var dims []string
 	if anon {
-		m.Set("setup", vals("matrix.value", 1))
+		m.Set("setup", vals("matrix.value", 0))
 		dims = []string{""}
 	} else {
 		nd := 1 + t.Draw(3, "matrix:ndims")
